@@ -345,7 +345,7 @@ impl Prop for C05 {
     }
     fn cases(&self, tier: Tier) -> u64 {
         match tier {
-            Tier::Quick => 28_000,
+            Tier::Quick => 112_000,
             Tier::Thorough => 700_000,
         }
     }
@@ -514,7 +514,7 @@ impl Prop for C04 {
     /// one case = one batch of BATCH scenarios replayed in K processes
     fn cases(&self, tier: Tier) -> u64 {
         match tier {
-            Tier::Quick => 14 * 24,
+            Tier::Quick => 14 * 48,
             Tier::Thorough => 14 * 1500,
         }
     }
